@@ -282,14 +282,14 @@ def gen(ctx, count):
         if keys is not None:
             c["base"] = [[kk, b, a] for kk, (_, b, a) in zip(keys, c["base"])]
             c["rekeyed"] = True
-        c["warmup"] = rng.random() < 0.4     # the batch is then the second call on its manager
+        c["warmup"] = rng.random() < 0.5     # the batch is then the second call on its manager
         out.append(c)
     return out
 
 
 def run(ctx):
     quick = ctx.tier == "quick"
-    cases = [c for c in answers.load_corpus("C05")] + gen(ctx, 110 if quick else 2500)
+    cases = [c for c in answers.load_corpus("C05")] + gen(ctx, 170 if quick else 2500)
     impls, resps = evaluate(cases, ctx.procs)
     for c, impl, (resp, tags) in zip(cases, impls, resps):
         ctx.evaluations += len(c["queries"])
